@@ -151,6 +151,7 @@ func runC18(c *core.Ctx) {
 				check(dyn.Probe{Name: cv.Name(), Run: cv.Probe(ch, l)}, ch, l)
 			}
 		}
+		check(dyn.Probe{Name: cv.Name(), Run: cv.Probe(8, 2100)}, 8, 2100) // more than 16384 samples
 	}
 	c.Floor("operations_measured", 1000)
 	c.Floor("control_allocations_detected", 200)
